@@ -184,7 +184,7 @@ func (NetH) Gen(prop string, seed uint64, tier string) *hx.Case {
 					noise()
 					add([]string{"getheaders", "getheaders", "getblocks", "getdata"}[r.Intn(4)], "ask-side")
 				case 3: // the peer asks for transactions of a block the node has
-					add("getblocktxn", []string{"gbt-valid", "gbt-range", "gbt-huge", "gbt-wrap", "gbt-many"}[r.Intn(5)])
+					add("getblocktxn", []string{"gbt-valid", "gbt-range", "gbt-huge", "gbt-wrap", "gbt-many", "gbt-wrap-many"}[r.Intn(6)])
 				}
 			}
 			noise()
@@ -915,7 +915,7 @@ func (n *netRun) convPayload(m *NetMsg, r *hx.Rng) (pl []byte, ok bool) {
 			delete(n.plans, p) // the next conversation of this peer announces a new block
 		}
 		return pl, true
-	case "gbt-valid", "gbt-range", "gbt-huge", "gbt-wrap", "gbt-many":
+	case "gbt-valid", "gbt-range", "gbt-huge", "gbt-wrap", "gbt-many", "gbt-wrap-many":
 		// a block the node has on disk: the tip (or a recent ancestor)
 		ln := n.model
 		for k := r.Intn(3); k > 0 && ln.Parent != nil && ln.Parent.Blk != nil; k-- {
@@ -938,6 +938,12 @@ func (n *netRun) convPayload(m *NetMsg, r *hx.Rng) (pl []byte, ok bool) {
 		case "gbt-many":
 			for i := 0; i < 2+r.Intn(5); i++ {
 				idx = append(idx, uint64(r.Intn(2)))
+			}
+		case "gbt-wrap-many":
+			// every further differential index of 2^64-1 names the same transaction again
+			idx = []uint64{uint64(r.Intn(int(ntx)))}
+			for i := 0; i < 200+r.Intn(800); i++ {
+				idx = append(idx, ^uint64(0))
 			}
 		}
 		var w bytes.Buffer
@@ -1393,6 +1399,26 @@ func (NetH) Run(t *testing.T, c *hx.Case) *hx.Outcome {
 				simrt.Sleep(time.Duration(r.Intn(30)) * time.Millisecond)
 			}
 		}
+		// (checked after the hang-up below) no reply to a getblocktxn is bigger than a block
+		checkReplies := func() {
+			maxBlock := 0
+			for _, ln := range n.l.Nodes {
+				if ln.Blk != nil {
+					if k := len(ln.Blk.Bytes()); k > maxBlock {
+						maxBlock = k
+					}
+				}
+			}
+			for p, cn := range n.conns {
+				off := 0
+				for _, m := range sentMessages(cn.Sent, &off) {
+					if string(m[0]) == "blocktxn" && len(m[1]) > maxBlock+100 && !n.bad {
+						viol("handler.amplification", "peer %d got a blocktxn reply of %d bytes; the biggest block the node has is %d bytes: a getblocktxn made the node send the same transactions over and over", p, len(m[1]), maxBlock)
+					}
+				}
+			}
+		}
+		defer checkReplies()
 		// let everything be consumed, then hang up
 		for i := 0; i < 400 && !n.bad; i++ {
 			pending := 0
